@@ -311,6 +311,12 @@ func (x *Interp) execStmt(fr *frame, st *Stmt) {
 		if st.Cond.eval(fr.sc.draws) {
 			x.exec(fr, st.Body)
 		}
+	case "ifinv":
+		// true only in the N-th invocation of this interpreter: the one deliberately non-deterministic statement
+		// (C02: a test case that falsifies the property on its first execution only)
+		if x.cur.Idx == st.N {
+			x.exec(fr, st.Body)
+		}
 	case "sig":
 		x.signal(fr, st)
 	case "skip":
